@@ -1028,6 +1028,15 @@ func (in *Interp) stmt(fr *Frame, s ast.Stmt) (ctl, Value) {
 				if op.notNamed && (k == "*types.Named" || k == "*types.Alias") {
 					continue
 				}
+				excluded := false
+				for _, nk := range op.notKinds {
+					if nk == k {
+						excluded = true // an earlier assertion or switch on this very value already ruled the kind out
+					}
+				}
+				if excluded && op.Kind == "" {
+					continue
+				}
 				cands = append(cands, cand{i, k})
 			}
 		}
